@@ -165,6 +165,32 @@ def d2(cx: Cx, ob: Ob) -> None:
             if is_const(e) and isinstance(e[1], str) and "://" not in e[1] and e[1] not in seen_pre:
                 seen_pre.add(e[1])
                 ob.violate(fn.qualname, fn.where, f"_prepare takes a string for a remote location when it starts with {e[1]!r}, which is also how a local file name can start", detail="remote-test-too-wide")
+    # the object a file decodes to is the object that was dumped: a decoding hook that re-orders (or de-duplicates)
+    # the members gives the loaders another dictionary order than the in-memory object has - and some loaders break
+    # ties by that order (from_reverse_prefix_map keeps the first of equally short URI prefixes)
+    import ast as _ast
+
+    for g in [fn] + [f_ for q_, f_ in cx.model.functions.items() if q_.endswith("._get_remote_json") or q_.endswith("._prepare")]:
+        for n in _ast.walk(g.node):
+            if isinstance(n, _ast.Call) and _ast.unparse(n.func) in ("json.load", "json.loads"):
+                for k in n.keywords:
+                    if k.arg in ("object_pairs_hook", "object_hook") and isinstance(k.value, _ast.Name):
+                        r = cx.model.resolve_global(g.module, k.value.id)
+                        hook = r[1] if r and r[0] == "func" else None
+                        if hook is None:
+                            ob.undecide(f"{g.name}: JSON decoding hook `{k.value.id}` not resolved")
+                            continue
+                        reorders = [c for c in _ast.walk(hook.node) if isinstance(c, _ast.Call) and isinstance(c.func, _ast.Name) and c.func.id in ("sorted", "reversed", "set", "frozenset")]
+                        if reorders:
+                            ob.violate(
+                                g.qualname,
+                                f"src/curies/{g.module.relpath}:{n.lineno}",
+                                f"{g.name} decodes JSON objects through `{hook.name}`, which applies `{_ast.unparse(reorders[0])[:40]}` to the members: a dictionary loaded from a file (str or Path) comes in another order than the object it was dumped from, and loaders that break ties by dictionary order build another converter",
+                                witness="from_reverse_prefix_map with two equally short URI prefixes for one prefix: the canonical URI prefix differs between the file and the object",
+                                detail="load-reorders",
+                            )
+                        else:
+                            ob.site(f"src/curies/{g.module.relpath}:{n.lineno} {g.qualname}", f"decoding hook {hook.name} keeps the order of the members")
     for o_, ctx in s.outcomes():
         if o_ is None:
             t, line = NONE, fn.node.lineno
